@@ -23,17 +23,18 @@ import (
 )
 
 var (
-	fCut        = simrt.NewFault("link.cut")
-	fWriteErr   = simrt.NewFault("link.write.error.after.cut")
-	fStall      = simrt.NewFault("link.stall")
-	fShortRead  = simrt.NewFault("link.short.read")
-	fSegmented  = simrt.NewFault("link.write.segmented")
-	fBackPress  = simrt.NewFault("link.backpressure.block")
-	fCoalesced  = simrt.NewFault("link.segments.coalesced")
-	fLatency    = simrt.NewFault("link.delivery.delayed")
-	fDeadline   = simrt.NewFault("link.deadline.expired")
-	ErrReset    = errors.New("simnet: connection reset by peer")
-	ErrInjected = errors.New("simnet: injected I/O error")
+	fCut         = simrt.NewFault("link.cut")
+	fWriteErr    = simrt.NewFault("link.write.error.after.cut")
+	fStall       = simrt.NewFault("link.stall")
+	fShortRead   = simrt.NewFault("link.short.read")
+	fSegmented   = simrt.NewFault("link.write.segmented")
+	fBackPress   = simrt.NewFault("link.backpressure.block")
+	fCoalesced   = simrt.NewFault("link.segments.coalesced")
+	fLatency     = simrt.NewFault("link.delivery.delayed")
+	fDeadline    = simrt.NewFault("link.deadline.expired")
+	fEOFWithData = simrt.NewFault("link.eof.delivered.with.last.bytes")
+	ErrReset     = errors.New("simnet: connection reset by peer")
+	ErrInjected  = errors.New("simnet: injected I/O error")
 )
 
 type timeoutErr struct{}
@@ -62,6 +63,10 @@ type LinkCfg struct {
 	// an error from then on. -1 = never.
 	CutAt  int64
 	CutErr error
+	// EOFWithData: when the writer has closed (or the link was cut) and a read
+	// takes the last delivered bytes, the error is returned together with them
+	// (n > 0, err) instead of on the next call - legal for an io.Reader.
+	EOFWithData bool
 }
 
 // DrawCfgFor is DrawCfg for a stream expected to carry about total bytes:
@@ -109,6 +114,7 @@ func DrawCfg(t *tape.Tape) LinkCfg {
 		c.StallFor = time.Duration(1+t.Choose(20)) * time.Second
 	}
 	c.YieldDen = 1 + t.Pick(6, 2, 1, 1)
+	c.EOFWithData = t.Bool(1, 4)
 	return c
 }
 
@@ -253,6 +259,16 @@ func (c *Conn) Read(p []byte) (int, error) {
 				d.avail = nil
 			}
 			d.wake(&d.writers)
+			if d.cfg.EOFWithData && len(d.avail) == 0 && d.inflight == 0 {
+				if d.cut {
+					fEOFWithData.Hit()
+					return n, d.cfg.CutErr
+				}
+				if d.wclosed {
+					fEOFWithData.Hit()
+					return n, io.EOF
+				}
+			}
 			return n, nil
 		}
 		if d.inflight == 0 {
